@@ -8,6 +8,7 @@ import (
 
 	casbin "github.com/casbin/casbin/v2"
 	"github.com/casbin/casbin/v2/model"
+	"github.com/casbin/casbin/v2/persist/cache"
 	stringadapter "github.com/casbin/casbin/v2/persist/string-adapter"
 )
 
@@ -209,14 +210,30 @@ type c14Wrapper interface {
 	RemoveNamedPolicy(ptype string, params ...interface{}) (bool, error)
 }
 
+// c14RecCache wraps the wrapper's own cache and counts the calls that reach it: while the cache
+// is switched off the wrapper must be a pass-through (nothing stored, nothing served).
+type c14RecCache struct {
+	inner      cache.Cache
+	sets, gets int
+}
+
+func (r *c14RecCache) Set(key string, value bool, extra ...interface{}) error {
+	r.sets++
+	return r.inner.Set(key, value, extra...)
+}
+func (r *c14RecCache) Get(key string) (bool, error) { r.gets++; return r.inner.Get(key) }
+func (r *c14RecCache) Delete(key string) error      { return r.inner.Delete(key) }
+func (r *c14RecCache) Clear() error                 { return r.inner.Clear() }
+
 func c14New(synced bool) (c14Wrapper, func(...interface{}) (bool, error)) {
-	return c14NewModel(false, synced)
+	w, under, _ := c14NewModel(false, synced)
+	return w, under
 }
 
 // c14NewModel builds a wrapper over the basic ACL model (cx=false) or over the model with
 // several request / policy / effect / matcher sections (cx=true); the second result is Enforce
 // of the EMBEDDED enforcer: an uncached twin that always is in the same state.
-func c14NewModel(cx bool, synced bool) (c14Wrapper, func(...interface{}) (bool, error)) {
+func c14NewModel(cx bool, synced bool) (c14Wrapper, func(...interface{}) (bool, error), *c14RecCache) {
 	text, stored := c14ModelText, c14StoredText()
 	if cx {
 		text, stored = c14CxModelText, c14CxStoredText()
@@ -232,14 +249,20 @@ func c14NewModel(cx bool, synced bool) (c14Wrapper, func(...interface{}) (bool, 
 			panic(err)
 		}
 		e.EnableAutoSave(false)
-		return e, e.SyncedEnforcer.Enforce
+		sc, _ := cache.NewSyncCache()
+		rec := &c14RecCache{inner: sc}
+		e.SetCache(rec)
+		return e, e.SyncedEnforcer.Enforce, rec
 	}
 	e, err := casbin.NewCachedEnforcer(m, a)
 	if err != nil {
 		panic(err)
 	}
 	e.EnableAutoSave(false)
-	return e, e.Enforcer.Enforce
+	dc, _ := cache.NewDefaultCache()
+	rec := &c14RecCache{inner: dc}
+	e.SetCache(rec)
+	return e, e.Enforcer.Enforce, rec
 }
 
 type c14Case struct {
@@ -387,7 +410,7 @@ const (
 
 func c14Run(cs *c14Case) *c14Result {
 	res := &c14Result{}
-	w, under := c14NewModel(cs.cx, cs.synced)
+	w, under, rec := c14NewModel(cs.cx, cs.synced)
 	var opsSx []string
 	listed := true
 	quiet := true // no mutator of the embedded enforcer was called since the cache was last empty
@@ -396,6 +419,7 @@ func c14Run(cs *c14Case) *c14Result {
 	ttls := map[int]bool{}
 	seenKeys := map[string]bool{}
 	step := 0
+	cacheOn := true // the flag the user set last (EnableCache); a new wrapper starts switched on
 	for _, o := range cs.ops {
 		if o.kind == "sleep" {
 			time.Sleep(c14Sleep)
@@ -411,6 +435,10 @@ func c14Run(cs *c14Case) *c14Result {
 		}
 		opsSx = append(opsSx, o.sx(now))
 		var out string
+		setsBefore, getsBefore, wasOn := 0, 0, cacheOn
+		if rec != nil {
+			setsBefore, getsBefore = rec.sets, rec.gets
+		}
 		switch o.kind {
 		case "e":
 			vals := c14Values(o.ps)
@@ -475,6 +503,7 @@ func c14Run(cs *c14Case) *c14Result {
 			out = c14Call(func() string { return c14Ret(w.AddPolicies(o.rules)) })
 		case "en":
 			w.EnableCache(o.b)
+			cacheOn = o.b
 			out = c14Ret(true, nil)
 		case "ttl":
 			w.SetExpireTime(time.Duration(o.d) * time.Microsecond)
@@ -516,6 +545,12 @@ func c14Run(cs *c14Case) *c14Result {
 			}
 		}
 		res.obs = append(res.obs, [2]string{fmt.Sprintf("%d.u", step), ub.String()})
+		// pass-through while the user has the cache switched off: the call neither stores nor
+		// looks anything up (the flag is the one set through EnableCache, whatever the call was)
+		if rec != nil && !wasOn && !cacheOn && out != "panic" && (rec.sets != setsBefore || rec.gets != getsBefore) {
+			res.directs = append(res.directs, [2]string{
+				fmt.Sprintf("step %d (%s): the cache is switched off (EnableCache(false)) but the call stored %d and looked up %d entries in it", step, o.kind, rec.sets-setsBefore, rec.gets-getsBefore), ""})
+		}
 		step++
 	}
 	v := "p"
